@@ -2338,8 +2338,10 @@ impl<'a, E: quiver_core::effects::Effect> Compiler<'a, E> {
         if let Some(skip_jump) = skip_cleanup_jump {
             self.codegen.patch_jump_to_here(skip_jump);
         }
+        // A block whose last condition fails still has to clear its parameter local, so these
+        // land on the parameter-clearing Reset rather than past it.
         for jump_addr in final_end_jumps {
-            self.codegen.patch_jump_to_here(jump_addr);
+            self.codegen.patch_jump_to_addr(jump_addr, param_clear_addr);
         }
 
         // Patch end_jumps to go to param clear
